@@ -11,7 +11,9 @@ P == INSTANCE Sequencer WITH start <- pstart, counter <- pcounter, served <- pse
 vars == <<start, counter, served, last, pstart, pcounter, pserved, plast, hist, run, sets>>
 
 STARTS == {[kind |-> "simple", value |-> 0], [kind |-> "account", value |-> 7], [kind |-> "init", value |-> 1756],
-           [kind |-> "ping", value |-> 10], [kind |-> "account", value |-> 239]}
+           [kind |-> "ping", value |-> 10], [kind |-> "account", value |-> 239],
+           \* "arbitrary start values": negative (reachable from wire bytes: from_init_values(0, 5) = -8) and beyond the short range
+           [kind |-> "init", value |-> -8], [kind |-> "simple", value |-> 64005]}
 Init == /\ \E s \in {[kind |-> "simple", value |-> 0], [kind |-> "init", value |-> 1756]} : A!Init(s) /\ P!Init(s) /\ hist = <<[op |-> "init", kind |-> s.kind, value |-> s.value]>>
         /\ run = 0 /\ sets = 0
 DoNext == /\ run < MAXRUN /\ A!NextSequence /\ P!NextSequence
